@@ -38,6 +38,10 @@ func runC34(p *core.Prog, r *core.Report) {
 			return len(path) > 0 && path[len(path)-1] == "allowedEvents"
 		}},
 	}})
+	// ---- R5 'unexpired' is judged against the chain height of now
+	r5 := r.Rule("C34.R5", "validateExpiration returns nil only after comparing the fallback's NotValidBefore with a chain height obtained from the block counter in this very call (directly, or through a helper whose every result is the counter's answer of that call): a remembered height is lower than the real one, the only unsafe direction", 2)
+	expirationAgainstFreshHeight(p, r, r5, prepT)
+	r.Explain += " (R5) the height the fallback's NotValidBefore is compared with is the block counter's answer obtained inside validateExpiration for this request; a height remembered from an earlier request can only be too low, which turns 'expired' into 'valid' and lets a request whose fallback is already valid be co-signed."
 	// ---- R2
 	r2 := r.Rule("C34.R2", "NotaryParserInfo.p is written only by SetUnaryParser (single-call acceptor) and SetParser; SetParser receives only tabled multi-call parsers", 3)
 	const npi = "(pkg/morph/event.NotaryParserInfo).p"
@@ -303,4 +307,92 @@ func runC34(p *core.Prog, r *core.Report) {
 			core.CheckCallers(p, r4, p.FuncsIn("pkg/innerring/..."), []core.CallerRule{{Sink: outer, MinSites: 1, Allowed: map[string]string{sr.via: "its guarded process function"}}})
 		}
 	}
+}
+
+// expirationAgainstFreshHeight: shared shape 'fresh evidence'. height := blockCounter.BlockCount() in this call (or via a
+// helper all of whose returned heights are results of BlockCount calls made in the helper); nil is returned only on the
+// false edge of `height >= nvb.Height` (or the true edge of `height < nvb.Height`).
+func expirationAgainstFreshHeight(p *core.Prog, r *core.Report, h *core.RuleH, prepT string) {
+	fn := p.Func(prepT + ".validateExpiration")
+	if fn == nil {
+		r.Fatalf("C34.R5: validateExpiration not found")
+		return
+	}
+	isCounterCall := func(v ssa.Value) bool {
+		c, ok := v.(ssa.CallInstruction)
+		return ok && c.Common().IsInvoke() && c.Common().Method.Name() == "BlockCount"
+	}
+	var freshHelper func(f *ssa.Function, depth int) bool
+	freshHelper = func(f *ssa.Function, depth int) bool {
+		if f == nil || f.Blocks == nil || depth == 0 {
+			return false
+		}
+		for _, b := range f.Blocks {
+			ret, ok := b.Instrs[len(b.Instrs)-1].(*ssa.Return)
+			if !ok || len(ret.Results) == 0 {
+				continue
+			}
+			v := ret.Results[0]
+			if c, isC := v.(*ssa.Const); isC && len(ret.Results) > 1 {
+				_ = c // zero height next to an error
+				continue
+			}
+			if !freshValue(v, isCounterCall, freshHelper, depth) {
+				return false
+			}
+		}
+		return true
+	}
+	isFresh := func(v ssa.Value) bool { return freshValue(v, isCounterCall, freshHelper, 3) }
+	cmp := func(op token.Token) func(*ssa.Function, ssa.Value) bool {
+		return func(_ *ssa.Function, v ssa.Value) bool {
+			bo, ok := v.(*ssa.BinOp)
+			if !ok || bo.Op != op {
+				return false
+			}
+			_, path := core.AccessPath(bo.Y)
+			return isFresh(bo.X) && len(path) > 0 && path[len(path)-1] == "Height"
+		}
+	}
+	guards := []core.Guard{
+		{Name: "height-below-nvb(ge-form)", Comps: []core.Comp{{Result: -1, Kind: core.IsFalse}}, Value: cmp(token.GEQ)},
+		{Name: "height-below-nvb(lt-form)", Comps: []core.Comp{{Result: -1, Kind: core.IsTrue}}, Value: cmp(token.LSS)},
+	}
+	core.CheckSuccessFn(p, h, fn, core.SuccessRule{ResultIdx: -1, MinReturns: 1, Guards: guards,
+		Derived: []core.Derived{{Name: "fallback-not-yet-valid-at-the-current-height", Alts: [][]string{{guards[0].Name}, {guards[1].Name}}}}, Need: []string{"fallback-not-yet-valid-at-the-current-height"}})
+	// and the counter is asked at all
+	n := 0
+	for _, b := range fn.Blocks {
+		for _, in := range b.Instrs {
+			if v, ok := in.(ssa.Value); ok && (isCounterCall(v) || func() bool {
+				c, isC := in.(*ssa.Call)
+				return isC && core.StaticCallee(c) != nil && freshHelper(core.StaticCallee(c), 2)
+			}()) {
+				n++
+			}
+		}
+	}
+	h.Check(n > 0, core.FuncName(fn)+"#asks-the-chain", p.Pos(fn.Pos()), "the chain height is read in this call", "validateExpiration no longer reads the chain height itself")
+}
+
+// freshValue: v is result #0 of a BlockCount invoke, or of a helper all of whose results are.
+func freshValue(v ssa.Value, isCounterCall func(ssa.Value) bool, helper func(*ssa.Function, int) bool, depth int) bool {
+	switch x := v.(type) {
+	case *ssa.Extract:
+		if x.Index != 0 {
+			return false
+		}
+		if isCounterCall(x.Tuple) {
+			return true
+		}
+		if c, ok := x.Tuple.(*ssa.Call); ok {
+			return helper(core.StaticCallee(c), depth-1)
+		}
+	case *ssa.Call:
+		if isCounterCall(x) {
+			return true
+		}
+		return helper(core.StaticCallee(x), depth-1)
+	}
+	return false
 }
